@@ -446,12 +446,13 @@ def scan(repo):
         out = []
         scopes = [f for f in info[rel][0] if f.start <= pos <= f.body_close]
         for nm in names:
-            if nm in global_names: out.append(nm + ':' + '|'.join(sorted(global_names[nm])))
-            elif nm.endswith('()'): out.append(nm + ':' + hashy_fns.get(nm[:-2], ''))
-            else:
-                for f in scopes:
-                    r = local_names.get((rel, f.start), {}).get(nm)
-                    if r: out.append(nm + ':' + r); break
+            why = []
+            if nm in global_names: why += sorted(global_names[nm])
+            if nm.endswith('()'): why.append(hashy_fns.get(nm[:-2], ''))
+            for f in scopes:
+                r = local_names.get((rel, f.start), {}).get(nm)
+                if r and r not in why: why.append(r)
+            out.append(nm + ':' + '|'.join(why))
         return ' ; '.join(out)
     def find_sites():
         sites = []
@@ -585,6 +586,15 @@ def scan(repo):
             # digest of the cleaned text a..b (comments and string-literal contents blanked), whitespace-normalised
             return hashlib.sha1(norm(cs[a:b]).encode()).hexdigest()[:10]
         st['digest'] = dig(st['span'][0], st['span'][1])
+        if st['kind'] == 'call':
+            # the order handed over is decided inside the callee: its text is part of what was audited
+            callee = st['names'][0][:-2]
+            parts = [st['digest']]
+            for rel2 in sorted(files):
+                for g in info[rel2][0]:
+                    if g.name == callee:
+                        parts.append(hashlib.sha1(norm(files[rel2][1][g.start:g.body_close + 1]).encode()).hexdigest()[:10])
+            st['digest'] = hashlib.sha1('+'.join(parts).encode()).hexdigest()[:10]
         f = enclosing_fn(st['file'], st['pos'])
         st['fndigest'] = dig(f.start, f.body_close + 1) if f else st['digest']
         st['decldigest'] = hashlib.sha1(st['decl'].encode()).hexdigest()[:10]
